@@ -92,13 +92,8 @@ where
                 disposers_tmp[new_end] = disposers[end].take();
             }
             debug_assert!(
-                    if end != 0 && new_end != 0 {
-                        (end == items.len() && new_end == new_items.len())
-                            || (items[end - 1] != new_items[new_end - 1])
-                    } else {
-                        true
-                    },
-                    "end and new_end are the last indexes where items[end - 1] != new_items[new_end - 1]"
+                    end == start || new_end == start || items[end - 1] != new_items[new_end - 1],
+                    "end and new_end are the last indexes (after start) where items[end - 1] != new_items[new_end - 1]"
                 );
 
             // 0) Prepare a map of indices in new_items. Scan backwards so we encounter them in
